@@ -509,6 +509,12 @@ func (m *Model) applyZSet(o Op) Exp {
 			m.dev("D13")
 			return Exp{Skip: "ZREMRANGEBYLEX on mixed scores is unspecified (D13)", Abort: true}
 		}
+		cls := ""
+		if e != nil && !lo.min && strings.HasSuffix(lo.v, "\x00") {
+			if _, ok := e.m[lo.v[:len(lo.v)-1]]; ok {
+				cls = "nul-suffix-lower-bound" // see zrangebylex
+			}
+		}
 		n := int64(0)
 		for _, p := range zsorted(e) {
 			if inLex(p.m, lo, hi) {
@@ -519,7 +525,7 @@ func (m *Model) applyZSet(o Op) Exp {
 		if e != nil && len(e.m) == 0 {
 			m.zsetDrop(tk)
 		}
-		return Exp{R: rInt(n)}
+		return Exp{R: rInt(n), Class: cls}
 	case "zclear":
 		m.dev("D7")
 		if e := m.zsetW(tk, o.Ts); e != nil {
